@@ -135,3 +135,5 @@ Definition typed_step (mc md : mode) (S : fsys) (o : tcall) : fsys * tobs :=
   | TWriteArchive p a loc => let '(S', r) := write_archive mc S p a loc in (S', OUnit r)
   | TWriteText p a loc => let '(S', r) := write_text_archive mc S p a loc in (S', OUnit r)
   end.
+Fixpoint typed_run (mc md : mode) (S : fsys) (os : list tcall) : fsys :=
+  match os with [] => S | o :: r => typed_run mc md (fst (typed_step mc md S o)) r end.
